@@ -196,6 +196,24 @@ func TestGowpReplayC02Float(t *testing.T) {
 	}
 }
 
+// two-operand assignments with a blank destination
+func TestGowpReplayC02Blank(t *testing.T) {
+	for _, p := range []struct{ src, call, want string }{
+		{"func t1() int { a, b := 1, 2; _, _ = a, b; return a + b }", "t1()", "3"},
+		{"func t3() int { a, b := 1, 2; _, b = b, a; a, _ = b, 7; return a*10 + b }", "t3()", "11"},
+		{"func t5() int { n := 0; f := func() int { n++; return n }; _, _ = f(), f(); return n }", "t5()", "2"},
+		{"func t6() int { var arr [2]int; i := 0; _, arr[i] = 5, 6; arr[0], _ = arr[0]+1, 9; return arr[0] }", "t6()", "7"},
+	} {
+		ir := New()
+		if _, err := gowpEval02(ir, p.src); err != nil {
+			t.Fatalf("GOWP-REPLAY-FAIL %s does not compile: %v", p.src, err)
+		}
+		if res, err := gowpEval02(ir, p.call); err != nil || fmt.Sprint(res) != p.want {
+			t.Fatalf("GOWP-REPLAY-FAIL %s; %s = %v (panic %v), compiled Go gives %s", p.src, p.call, res, err, p.want)
+		}
+	}
+}
+
 func TestGowpReplayC02(t *testing.T) {
 	ops := []string{"=", "+=", "-=", "*=", "/=", "%=", "&=", "|=", "^=", "&^=", "<<=", ">>="}
 	places := []struct{ decl, place string }{
